@@ -454,7 +454,9 @@ class NDNApp:
                     self.logger.debug('Registration for %s succeeded: %s %s',
                                       Name.to_str(name), ret["status_code"], ret["status_text"])
                     return True
-            except (InterestNack, InterestTimeout, InterestCanceled, ValidationFailure) as e:
+            except (InterestNack, InterestTimeout, InterestCanceled, ValidationFailure,
+                    DecodeError, ValueError, IndexError, TypeError, struct.error) as e:
+                # The last five: the reply is not a decodable ControlResponse
                 self.logger.error('Registration for %s failed: %s', Name.to_str(name), e.__class__.__name__)
                 return False
 
@@ -466,12 +468,21 @@ class NDNApp:
         :type name: :any:`NonStrictName`
         """
         name = Name.normalize(name)
-        del self._prefix_tree[name]
         try:
-            await self.express_interest(make_command('rib', 'unregister', self.face, name=name), lifetime=1000)
-            return True
-        except (InterestNack, InterestTimeout, InterestCanceled, ValidationFailure):
-            return False
+            del self._prefix_tree[name]
+        except KeyError:
+            # The prefix was registered without a handler
+            pass
+        # Commands are issued one at a time, as in register()
+        async with self._prefix_register_semaphore:
+            try:
+                _, _, reply = await self.express_interest(
+                    make_command('rib', 'unregister', self.face, name=name), lifetime=1000)
+                ret = parse_response(reply)
+                return ret['status_code'] == 200
+            except (InterestNack, InterestTimeout, InterestCanceled, ValidationFailure,
+                    DecodeError, ValueError, IndexError, TypeError, struct.error):
+                return False
 
     def set_interest_filter(self, name: NonStrictName, func: Route,
                             validator: Validator | None = None, need_raw_packet: bool = False,
